@@ -88,6 +88,7 @@ func setRejoinContext(ctx *context) error {
 		ctx.joinType = v.RejoinType
 		ctx.devNonce = lorawan.DevNonce(v.RJCount0)
 	case *lorawan.RejoinRequestType1Payload:
+		ctx.joinEUI = v.JoinEUI
 		ctx.joinType = v.RejoinType
 		ctx.devNonce = lorawan.DevNonce(v.RJCount1)
 	default:
